@@ -812,8 +812,59 @@ def task_large(ctx, part, parts):
 
 
 # ----------------------------------------------------------------------
+# Q given as an ndarray SUBCLASS (numpy.matrix, a masked array without masked entries, a user subclass that redefines
+# nothing): the form factors are evaluated element by element, exactly as for the plain array of the same numbers
+def check_subclass_q(ctx, case):
+    import warnings
+    import numpy as np
+    import periodictable as pt
+    sym, charge, name, kind = case["symbol"], case["charge"], case["fn"], case["q"]
+    ctx.case(("q-subclass", sym, charge, name, kind), nontrivial=True, sample=case, cls=["q-subclass:" + kind])
+    base = np.array([[0.0, 0.7, 1.9], [3.1, 6.0, 11.5], [0.05, 2.2, 25.0]])
+
+    class Tagged(np.ndarray):
+        pass
+    with warnings.catch_warnings():
+        warnings.simplefilter("ignore")
+        q = {"matrix": lambda: np.matrix(base), "masked": lambda: np.ma.masked_array(base, mask=False),
+             "user-subclass": lambda: base.view(Tagged), "row-matrix": lambda: np.matrix(base[:1])}[kind]()
+        plain = np.asarray(q, dtype=float).copy()
+        if name == "f0":
+            atom = pt.elements.symbol(sym)
+            atom = atom.ion[charge] if charge else atom
+            fn = atom.xray.f0
+        else:
+            fn = getattr(pt.elements.symbol(sym).magnetic_ff[charge], name)
+        try:
+            want = np.asarray(fn(plain), dtype=float)
+        except KeyError:
+            ctx.count("q-subclass:no-coefficient-set")
+            return
+        try:
+            got = np.asarray(fn(q), dtype=float)
+        except Exception as e:  # noqa
+            raise Violation("c20:q-subclass:raises", "%s %+d %s(Q) with Q a %s raised %s: %s; the plain array works"
+                            % (sym, charge, name, kind, type(e).__name__, str(e)[:100]), case)
+    if got.shape != want.shape or not np.allclose(got, want, rtol=1e-13, atol=0, equal_nan=True):
+        raise Violation("c20:q-subclass:value", "%s %+d %s(Q) with Q a %s gives %r, with the plain array of the same numbers %r"
+                        % (sym, charge, name, kind, got.tolist(), want.tolist()), case)
+
+
+def task_subclass_q(ctx):
+    for sym, charge in (("Fe", 2), ("Mn", 3), ("Ce", 3), ("O", 1)):
+        for name in ("j0_Q", "j2_Q", "j4_Q", "M_Q", "f0"):
+            for kind in ("matrix", "masked", "user-subclass", "row-matrix"):
+                if name != "f0":
+                    import periodictable as pt
+                    ff = pt.elements.symbol(sym).magnetic_ff.get(charge)
+                    if ff is None or not hasattr(ff, name[:-2] if name != "M_Q" else "M"):
+                        continue
+                ctx.check(check_subclass_q, {"kind": "q-subclass", "symbol": sym, "charge": charge, "fn": name, "q": kind})
+
+
 def tasks(tier):
-    out = [("tables-public", task_tables, dict(which="public")),
+    out = [("q-array-subclasses", task_subclass_q, {}),
+           ("tables-public", task_tables, dict(which="public")),
            ("tables-private", task_tables, dict(which="private")),
            ("tables-subclass", task_tables, dict(which="subclass")),
            ("tables-private-after-150-reloads", task_tables, dict(which="private", reinit=150)),
@@ -833,6 +884,8 @@ def replay(ctx, case):
     _ORDER[0] = case.get("order", "public-first")
     E = env()
     kind = case["kind"]
+    if kind == "q-subclass":
+        return check_subclass_q(ctx, case)
     if kind == "element":
         for b, m in GROUPS[case["group"]](E["tables"][case["table"]], case["table"], case["element"]):
             ctx.violation(b, m, case)
